@@ -250,6 +250,26 @@ func runC09(c *Ctx) {
 			pairs = append(pairs, docItem{"same-family-pairs", append(append(append([]byte{}, a...), 0xff), b...)})
 		}
 	}
+	// long closed prefixes: every filler length around 64..260 (quick) before a tail with loose
+	// lists and other per-line state
+	for _, fl := range longFillers {
+		if strings.ContainsAny(fl, "[") {
+			continue
+		}
+		lo, hi := 100, 140
+		if !c.Quick() {
+			lo, hi = 1, 1100
+		}
+		for n := lo; n <= hi; n++ {
+			a := []byte(strings.Repeat(fl, n))
+			for ti, t := range longTails {
+				if strings.ContainsAny(t, "[") || (!c.Quick() && n > 300 && ti != n%len(longTails)) {
+					continue
+				}
+				pairs = append(pairs, docItem{"long-prefix-pairs", append(append(append([]byte{}, a...), 0xff), []byte(t)...)})
+			}
+		}
+	}
 	lawSweep(c, cfgs, pairs, "independence-law", func(d []byte) bool { return true }, func(m mdT, d []byte) (string, bool) {
 		i := bytes.IndexByte(d, 0xff)
 		a, b := d[:i], d[i+1:]
